@@ -523,6 +523,52 @@ fn flood_session(rng: &mut Rng, cfg: Cfg) -> Script {
     sc
 }
 
+/// the sink's high-water mark (128 KiB) with a blocked connection: `poll_ready` turns `Pending`,
+/// pending Reset/Close frames pile up, and beyond `max_substreams + 1000` the connection fails
+fn backpressure_session(rng: &mut Rng, cfg: Cfg, overflow: bool) -> Script {
+    let mut sc = Script::new(cfg);
+    sc.wire(&enc(Kind::Open, 0, true, &[]), 0);
+    sc.op("inbound".into());
+    sc.op("outbound".into());
+    sc.op("wblock 1".into());
+    let big = 131072 - rng.usize(3);
+    sc.op(format!("write 0:d r41x{big}"));
+    sc.op("write 0:d 0102".into());
+    sc.op("write 0:d 0304".into());
+    sc.op("write 0:l 05".into());
+    sc.op("close 0:d".into());
+    sc.op("flush 0:l".into());
+    sc.op("outbound".into());
+    sc.op("read 0:l 4".into());
+    if overflow {
+        // excess Opens: each queues a Reset that cannot be sent
+        let n = cfg.ms as u64 + 1000 + 3;
+        let mut bytes = vec![];
+        for i in 0..n {
+            bytes.extend(enc(Kind::Open, 10 + i, true, &[]));
+        }
+        sc.wire(&bytes, 0);
+        for _ in 0..4 {
+            sc.op("inbound".into());
+        }
+        sc.op("read 0:l 4".into());
+    } else {
+        sc.wire(&enc(Kind::Open, 1, true, &[]), 0);
+        sc.wire(&enc(Kind::Data, 0, true, &[9, 9]), 0);
+        sc.op("inbound".into());
+        sc.op("drop 0:d".into());
+        sc.op("read 0:l 4".into());
+        sc.op("inbound".into());
+    }
+    sc.op("wblock 0".into());
+    sc.op("write 0:l 06".into());
+    sc.op("flush 0:l".into());
+    sc.op("read 0:l 4".into());
+    sc.op("inbound".into());
+    sc.op("closeconn".into());
+    sc
+}
+
 pub fn run(args: &Args, out: &mut Out) {
     if let Some(cases) = args.replay_cases() {
         for (i, (hdr, ops)) in cases.iter().enumerate() {
@@ -548,6 +594,14 @@ pub fn run(args: &Args, out: &mut Out) {
                     idx += 1;
                 }
             }
+        }
+    }
+    for (j, (ms, overflow)) in [(2usize, false), (3, false), (2, true), (4, true)].iter().enumerate() {
+        for block in [true, false] {
+            let mut rng = Rng::for_case(args.seed, 20_000_000 + j as u64);
+            let cfg = Cfg { ms: *ms, mb: 2, block, split: 1 << 20 };
+            backpressure_session(&mut rng, cfg, *overflow).emit(out, idx, "backpressure");
+            idx += 1;
         }
     }
     let n = args.n(1200, 40_000);
